@@ -147,3 +147,126 @@ func CloneConfig(c *Config) *Config {
 	}
 	return o
 }
+
+// depOn returns a dependency declaration on one of the identities reg provides.
+func depOn(t *rapid.T, r *Reg) (DepSpec, bool) {
+	ps := r.Provides()
+	if len(ps) == 0 {
+		return DepSpec{}, false
+	}
+	p := rapid.SampledFrom(ps).Draw(t, "depOnIdent")
+	d := DepSpec{T: p.Ident.T, Key: p.Ident.Key, Group: p.Ident.Group}
+	if rapid.IntRange(0, 5).Draw(t, "depOnOpt") == 0 {
+		d.Optional = true
+	}
+	return d, true
+}
+
+func addDep(r *Reg, d DepSpec) {
+	r.Deps = append(r.Deps, d)
+	if d.Key != "" || d.Group != "" || d.Optional {
+		r.UseIn = true
+	}
+}
+
+func (m *Model) reaches(from, to int) bool {
+	seen := map[int]bool{}
+	st := []int{from}
+	for len(st) > 0 {
+		u := st[len(st)-1]
+		st = st[:len(st)-1]
+		if u == to {
+			return true
+		}
+		if seen[u] {
+			continue
+		}
+		seen[u] = true
+		st = append(st, m.RegEdges(m.Regs[u])...)
+	}
+	return false
+}
+
+// PlantCycle closes a dependency cycle: picks registrations u, v with v
+// reachable from u (or v == u) and makes v depend on u; optionally makes a
+// third registration depend on two members of the cycle. Returns false when
+// the configuration offers no opportunity.
+func PlantCycle(t *rapid.T, cfg *Config) bool {
+	m, err := NewModel(cfg)
+	if err != nil {
+		return false
+	}
+	type pair struct{ u, v int } // indices into cfg.Regs
+	var cands []pair
+	for i := range cfg.Regs {
+		if len(cfg.Regs[i].Provides()) == 0 {
+			continue
+		}
+		for j := range cfg.Regs {
+			if cfg.Regs[j].Form == FormInstance {
+				continue
+			}
+			if i == j || m.reaches(cfg.Regs[i].ID, cfg.Regs[j].ID) {
+				cands = append(cands, pair{i, j})
+			}
+		}
+	}
+	if len(cands) == 0 {
+		return false
+	}
+	p := rapid.SampledFrom(cands).Draw(t, "cyclePair")
+	d, ok := depOn(t, &cfg.Regs[p.u])
+	if !ok {
+		return false
+	}
+	addDep(&cfg.Regs[p.v], d)
+	if p.u != p.v && rapid.Bool().Draw(t, "sharedParent") {
+		// a third registration depending directly on two members of the cycle
+		for k := range cfg.Regs {
+			if k != p.u && k != p.v && cfg.Regs[k].Form != FormInstance {
+				d1, ok1 := depOn(t, &cfg.Regs[p.u])
+				d2, ok2 := depOn(t, &cfg.Regs[p.v])
+				if ok1 && ok2 {
+					addDep(&cfg.Regs[k], d1)
+					addDep(&cfg.Regs[k], d2)
+				}
+				break
+			}
+		}
+	}
+	return true
+}
+
+// PlantCaptive makes a singleton/transient registration depend on a scoped one
+// without closing a cycle. Returns false when there is no opportunity.
+func PlantCaptive(t *rapid.T, cfg *Config) bool {
+	m, err := NewModel(cfg)
+	if err != nil {
+		return false
+	}
+	type pair struct{ a, b int }
+	var cands []pair
+	for i := range cfg.Regs {
+		a := &cfg.Regs[i]
+		if a.Life == Scoped || a.Form == FormInstance {
+			continue
+		}
+		for j := range cfg.Regs {
+			b := &cfg.Regs[j]
+			if b.Life != Scoped || len(b.Provides()) == 0 || m.reaches(b.ID, a.ID) {
+				continue
+			}
+			cands = append(cands, pair{i, j})
+		}
+	}
+	if len(cands) == 0 {
+		return false
+	}
+	p := rapid.SampledFrom(cands).Draw(t, "captivePair")
+	d, ok := depOn(t, &cfg.Regs[p.b])
+	if !ok {
+		return false
+	}
+	addDep(&cfg.Regs[p.a], d)
+	return true
+}
